@@ -986,7 +986,7 @@ fn release_absorbed_keys(state: &mut State) -> (events: Vec<Event>)
           //@ C01 C02 | inclusion invariant J (every held output key is justified by what is pressed)
           none_needs(state.active_mappings@, i + 1, k),
         decreases i + 1
-      {
+      { //@ | body
         if fails_when_released(&state.active_mappings[i as usize].from, &k) {
           let ghost e0 = events@; let ghost hm0 = held(*state);
           let ghost am0 = state.active_mappings@; let ghost st_rm = *state;
@@ -2426,7 +2426,7 @@ fn newly_release(mapper: &mut Mapper, k: KeyCode) -> (res: StepResult)
       //@ C05 | a release lifts only the key itself or outputs owned by its mappings; pass-through keys are not outputs of mappings in effect
       c05_rel(events@, amo, state.active_mappings@, k),
     decreases i + 1
-  {
+  { //@ | body
     if fails_when_released(&state.active_mappings[i as usize].from, &k) {
       let ghost e0 = events@; let ghost hm0 = held(*state); let ghost am0 = state.active_mappings@; let ghost mo_pre = state.mapped_output_keys@;
       events.append(&mut remove_mapping(state, i as usize, k));
